@@ -162,11 +162,12 @@ func getFx() *fixtures {
 type Bounds struct{ Depth int }
 
 type sys struct {
-	f    *fixtures
-	ctx  sdk.Context
-	now  time.Time
-	typ  string // current client type ("" = none)
-	inst int    // variant installed
+	f     *fixtures
+	ctx   sdk.Context
+	now   time.Time
+	typ   string // current client type ("" = none)
+	inst  int    // variant installed
+	waits int    // number of "wait" operations so far (bounded)
 }
 
 func New(b Bounds) bfs.System {
@@ -193,6 +194,9 @@ func (s *sys) Ops() []string {
 		out = append(out, "create "+t, "create-wrong-consensus "+t, "upgrade "+t, "toggle "+t)
 	}
 	out = append(out, "create-bad-name tm", "upgrade-bsc-off-epoch", "update", "update-outsider")
+	if s.waits < 2 {
+		out = append(out, "wait") // the local clock passes the delay period (an install at an already tracked height must restart the delay)
+	}
 	return out
 }
 
@@ -338,6 +342,11 @@ func (s *sys) Apply(op string) (obs, class string, viols []bfs.Viol) {
 		// (d) an update with a valid header from the authorised account succeeds
 		s.probeUpdate(op, f[0], t, add)
 		return "ok", class, viols
+	case "wait":
+		s.waits++
+		s.now = s.now.Add(20 * time.Second)
+		s.ctx = s.ctx.WithBlockTime(s.now)
+		return "waited", "clock advanced beyond the delay period", nil
 	case "update", "update-outsider":
 		if s.typ == "" {
 			return "no client", "update without client", nil
@@ -478,7 +487,7 @@ func (s *sys) Key() string {
 		ks = append(ks, fmt.Sprintf("%x=%x", k, v))
 	}
 	sort.Strings(ks)
-	return fmt.Sprintf("%s/%d/%x", s.typ, s.inst, world.DigestStrings(ks))
+	return fmt.Sprintf("%s/%d/%d/%d/%x", s.typ, s.inst, s.waits, s.now.Unix(), world.DigestStrings(ks))
 }
 
 func (s *sys) Check() []bfs.Viol { return nil }
